@@ -653,6 +653,95 @@ fn race_delete_window(s: &mut Session) {
     s.person = Vec::new();
 }
 
+/// whatever the second database command of an account deletion is, nobody else may get in between: the stub parks the SECOND
+/// command of A's DELETE /users/delete, meanwhile B tries to take the name over.  (On the shipped order - problems first, user
+/// second - the account still exists in the window and B is turned away.)
+fn race_delete_second_command(s: &mut Session) {
+    s.jars = vec![None; 3];
+    s.me = vec!["-".to_string(); 3];
+    s.ctrl.cmd(json!({"cmd": "reset"}));
+    s.scen = "race-delete2".into();
+    s.seq = 0;
+    s.expected_updates = 0;
+    s.out.push(json!({"kind": "reset", "id": s.scen, "principals": 2, "race": "delete-second-command"}));
+    s.req(Some(0), "register", json!({"username": "d2alice", "password": "pw-A-1"}));
+    s.req(Some(0), "login", json!({"username": "d2alice", "password": "pw-A-1"}));
+    s.req(Some(0), "add", json!({"name": "MINE2", "parsing": "Naive", "class": "good", "code": "s(p1k1s0).ac(p1k1s0,c(v))."}));
+    s.settle(true);
+    let h = s.ctrl.cmd(json!({"cmd": "hold", "match": {"cmd": "*", "contains": "d2alice", "skip": 1}}));
+    let hid = h["hold"].as_u64().unwrap_or(0);
+    let jar_a = s.jars[0].clone();
+    s.out.push(json!({"kind": "http_start", "id": format!("{}#launch", s.scen), "p": 1, "dev": 1, "op": "delete_account", "args": {}}));
+    let t = std::thread::spawn(move || http("DELETE", "/users/delete", jar_a.as_deref(), None, &[]));
+    let held = s.ctrl.cmd(json!({"cmd": "held", "hold": hid, "wait_ms": 15000}));
+    let parked = held["held"].as_array().map(|a| !a.is_empty()).unwrap_or(false);
+    s.out.push(json!({"kind": "note", "id": format!("{}#hold", s.scen), "parked": parked}));
+    let (st, _) = s.req(Some(1), "register", json!({"username": "d2alice", "password": "pw-B-2"}));
+    let early = st == 200;
+    if early {
+        s.req(Some(1), "login", json!({"username": "d2alice", "password": "pw-B-2"}));
+        s.req(Some(1), "list", json!({}));
+        s.req(Some(1), "add", json!({"name": "THEIRS2", "parsing": "Naive", "class": "good", "code": "s(p2k1s0).ac(p2k1s0,c(f))."}));
+    }
+    s.ctrl.cmd(json!({"cmd": "release", "id": hid}));
+    let ra = t.join().unwrap();
+    s.jars[0] = None;
+    s.me[0] = "-".to_string();
+    s.seq += 1;
+    s.out.push(json!({"kind": "http", "id": format!("{}#{}", s.scen, s.seq), "p": 1, "dev": 1, "op": "delete_account", "args": {}, "had_cookie": true,
+                      "status": ra.status, "body": {"text": ""}, "cookie_after": false, "concurrent": true, "me": "d2alice", "db": []}));
+    s.settle(true);
+    if !early {
+        s.req(Some(1), "register", json!({"username": "d2alice", "password": "pw-B-2"}));
+        s.req(Some(1), "login", json!({"username": "d2alice", "password": "pw-B-2"}));
+        s.req(Some(1), "add", json!({"name": "THEIRS2", "parsing": "Naive", "class": "good", "code": "s(p2k1s0).ac(p2k1s0,c(f))."}));
+    }
+    s.settle(true);
+    s.final_phase = true;
+    s.req(Some(1), "list", json!({}));
+    s.req(Some(1), "get", json!({"name": "THEIRS2"}));
+    s.req(Some(1), "get", json!({"name": "MINE2"}));
+    s.settle(true);
+    s.final_phase = false;
+}
+
+/// a rename takes ALL of the account's problems along (and their results), and leaves nothing behind under the old name
+fn rename_keeps_problems(s: &mut Session) {
+    s.jars = vec![None; 3];
+    s.me = vec!["-".to_string(); 3];
+    s.ctrl.cmd(json!({"cmd": "reset"}));
+    s.scen = "rename-keeps".into();
+    s.seq = 0;
+    s.expected_updates = 0;
+    s.out.push(json!({"kind": "reset", "id": s.scen, "principals": 2}));
+    s.req(Some(0), "register", json!({"username": "rkalice", "password": "pw-A-1"}));
+    s.req(Some(0), "login", json!({"username": "rkalice", "password": "pw-A-1"}));
+    for (k, name) in ["K1", "K2", "K3"].iter().enumerate() {
+        s.req(Some(0), "add", json!({"name": name, "parsing": if k == 1 { "Hybrid" } else { "Naive" }, "class": "good",
+                                     "code": format!("s(p1k{}s0).s(p1k{}s1).ac(p1k{}s0,neg(p1k{}s1)).ac(p1k{}s1,neg(p1k{}s0)).", k + 1, k + 1, k + 1, k + 1, k + 1, k + 1)}));
+        s.settle(true);
+    }
+    s.req(Some(0), "solve", json!({"name": "K2", "strategy": "Stable"}));
+    s.settle(true);
+    s.req(Some(0), "update", json!({"username": "rkcarol", "password": "pw-A-2"}));
+    s.settle(true);
+    s.req(Some(0), "solve", json!({"name": "K3", "strategy": "Complete"}));
+    s.settle(true);
+    // somebody else takes the old name
+    s.req(Some(1), "register", json!({"username": "rkalice", "password": "pw-B-2"}));
+    s.req(Some(1), "login", json!({"username": "rkalice", "password": "pw-B-2"}));
+    s.settle(true);
+    s.final_phase = true;
+    s.req(Some(0), "list", json!({}));
+    for name in ["K1", "K2", "K3"] {
+        s.req(Some(0), "get", json!({"name": name}));
+        s.req(Some(1), "get", json!({"name": name}));
+    }
+    s.req(Some(1), "list", json!({}));
+    s.settle(true);
+    s.final_phase = false;
+}
+
 /// two users own a problem with the SAME name; one of them runs a slow task; what does the other one see meanwhile?
 fn slow_task_scenario(s: &mut Session) {
     s.jars = vec![None; 3];
@@ -726,12 +815,14 @@ pub fn main(args: &[String]) {
     stale_session(&mut s, false);
     stale_session(&mut s, true);
     race_delete_window(&mut s);
+    race_delete_second_command(&mut s);
+    rename_keeps_problems(&mut s);
     let mut f = std::io::BufWriter::new(std::fs::File::create(&out).expect("cannot create out file"));
     for r in &s.out {
         writeln!(f, "{}", r).unwrap();
     }
     f.flush().unwrap();
-    eprintln!("server: {} scenarios, {} records", n + 7, s.out.len());
+    eprintln!("server: {} scenarios, {} records", n + 9, s.out.len());
     drop(procs);
     std::process::exit(0);
 }
